@@ -1,3 +1,59 @@
-import HW.Model.ClusterSys
+/-
+C19 — cluster activations: unique, placed on a capable member, known everywhere.
+Theorems over `HW.ClusterSys` (n agents, per-node registries, a pool of in-flight notifications
+delivered in an ARBITRARY order), under the well-formedness stated in the model file.
+-/
+import HW.Proofs.ClusterSys
+import HW.Proofs.Cluster
 namespace HW.C19
+open HW.Cluster HW.ClusterSys
+
+/-- Activate returns nil and spawns nothing if kind/id is already known to the cluster … -/
+theorem dup_nil (s : Sys) (nid kind id : String) (sel : Option Nat) (n : Node)
+    (hn : getNode s nid = some n) (hk : n.agent.activated.any (·.1 = key kind id) = true) :
+    activate s nid kind id sel = (s, none) :=
+  activate_known_nil s nid kind id sel n hn hk
+
+/-- … or if no member advertises the kind. -/
+theorem nokind_nil (s : Sys) (nid kind id : String) (sel : Option Nat) (n : Node)
+    (hn : getNode s nid = some n) (hk : ∀ m ∈ n.agent.members, m.kinds.contains kind = false) :
+    activate s nid kind id sel = (s, none) :=
+  activate_nokind_nil s nid kind id sel n hn hk
+
+/-- otherwise the PID returned is kind/id on a member that registered the kind, chosen among the
+    members advertising it, and at most one actor is spawned — there. -/
+theorem spawn_once_on_capable (s : Sys) (nid kind id : String) (sel : Option Nat) (pid : Pid)
+    (h : (activate s nid kind id sel).2 = some pid) :
+    pid.2 = key kind id ∧
+    ∃ n t, getNode s nid = some n ∧ getNode s t.id = some t ∧ t.host = pid.1 ∧
+      t.localKinds.contains kind = true ∧
+      (∃ m ∈ n.agent.members, m.id = t.id ∧ m.kinds.contains kind = true) ∧
+      ((activate s nid kind id sel).1.log = s.log ∨
+       (activate s nid kind id sel).1.log = s.log ++ ["spawn:" ++ t.id ++ ":" ++ key kind id]) :=
+  activate_some s nid kind id sel pid h
+
+/-- once the resulting notifications have been delivered — under ALL arrival orders — every member
+    resolves kind/id to that same PID, and the cluster is consistent again. -/
+theorem agreement (s : Sys) (hc : Consistent s) (nid kind id : String) (sel : Option Nat) (pid : Pid)
+    (order : List Nat)
+    (h : (activate s nid kind id sel).2 = some pid)
+    (hlen : (activate s nid kind id sel).1.pool.length ≤ order.length) :
+    Consistent (drain (activate s nid kind id sel).1 order) ∧
+    ∀ n ∈ (drain (activate s nid kind id sel).1 order).nodes, getActiveByID n (key kind id) = some pid :=
+  activate_agreement s hc nid kind id sel pid order h hlen
+
+/-- Deactivate removes the entry on every member, under all arrival orders. -/
+theorem deactivate_everywhere (s : Sys) (hc : Consistent s) (nid : String) (pid : Pid) (order : List Nat)
+    (hn : (getNode s nid).isSome = true)
+    (hlen : (deactivate s nid pid).pool.length ≤ order.length) :
+    Consistent (drain (deactivate s nid pid) order) ∧
+    ∀ n ∈ (drain (deactivate s nid pid) order).nodes, getActiveByID n pid.2 = none :=
+  ClusterSys.deactivate_everywhere s hc nid pid order hn hlen
+
+/-- when a member leaves, every activation hosted on it disappears from a remaining member's view,
+    and nothing else does. -/
+theorem leave_purges (st : AgentSt) (m : Member) :
+    ∀ a, a ∈ (memberLeave st m).1.activated ↔ a ∈ st.activated ∧ a.2.1 ≠ m.host :=
+  Cluster.leave_purges st m
+
 end HW.C19
